@@ -24,10 +24,60 @@ def r_c15(toks):
 def r_c13(toks):
     return f"{'run_af' if toks[0] == 'AF' else 'run_packet'} {hex_to_coq(toks[1])}"
 
+def coq_scripts(tok):
+    body = tok[1:]
+    ents = []
+    for ent in [e for e in body.split(";") if e]:
+        pid, invs = ent.split("=", 1)
+        il = []
+        for inv in invs.split("|"):
+            acts = []
+            for a in [x for x in inv.split(",") if x]:
+                if a[0] == "r":
+                    acts.append(f"ARemove {a[1:]}")
+                else:
+                    p, k = a[1:].split(".", 1)
+                    kind = "KRec" if k[0] == "R" else "KPes" if k[0] == "P" else f"(KScript {k[1:]})"
+                    acts.append(f"AInsert {p} {kind}")
+            il.append("[" + "; ".join(acts) + "]")
+        ents.append(f"({pid}, [" + "; ".join(il) + "])")
+    return "[" + "; ".join(ents) + "]"
+
+def r_stream(toks):
+    """DMX / SEC / PESF cases; skipped (None) when too large for an in-Coq evaluation"""
+    k = toks[0]
+    if k == "DMX":
+        if sum(len(t) for t in toks[3:]) > 8000: return None
+        return f"run_dmx {toks[1]} {coq_scripts(toks[2])} [" + "; ".join(hex_to_coq(t) for t in toks[3:]) + "]"
+    if k == "SEC":
+        if sum(len(t) for t in toks[2:]) > 8000: return None
+        return f"run_sec {toks[1]} [" + "; ".join(hex_to_coq(t) for t in toks[2:]) + "]"
+    if k == "PESF":
+        if sum(len(t) for t in toks[1:]) > 8000: return None
+        return "run_pesf [" + "; ".join(hex_to_coq(t) for t in toks[1:]) + "]"
+    if k == "CRC": return f"run_crc {hex_to_coq(toks[1])}"
+    if k == "DSC": return f"run_dsc {hex_to_coq(toks[1])}"
+    if k == "PAT": return f"run_pat {hex_to_coq(toks[1])}"
+    if k == "PMT": return f"run_pmt {hex_to_coq(toks[1])}"
+    return None
+
 def r_c14(toks):
     return f"{'run_pes' if toks[0] == 'PES' else 'run_ppc'} false {hex_to_coq(toks[1])}"
 
 PROPS = {
+    "C04": dict(
+        props_files=["Props/C04.v"],
+        suites=["C04"],
+        render=r_stream,
+        rule="checksum: the empty string, all 256 one-byte and all 65536 two-byte strings (every table index reached), random "
+             "strings up to 1024 bytes (thorough: 4096) and each of them followed by its CRC, compared with the extracted *bitwise* "
+             "Annex A register (not the table model); gate: PAT/PMT installs handlers, then the next version of the PAT or PMT "
+             "arrives damaged (every single bit for sections <= 80 bytes, sampled bit pairs, bursts of 2..32 bits, random byte "
+             "damage; single- and multi-packet), then probe packets on every PID of interest; distinct = distinct case lines",
+        trusted=["ISO/IEC 13818-1 Annex A decoder model as transcribed in coq/Spec/CrcSpec.v",
+                 "CRC table and preset are copied from the source by bin/gen_tables.py on every run; the table proof is re-checked against them"],
+        assumptions=["input bytes are < 256", "the CRC gate is stated for the normal build; under cfg(fuzzing) the comparison is bypassed by design"],
+    ),
     "C14": dict(
         props_files=["Props/C14.v"],
         suites=["C14"],
